@@ -165,12 +165,20 @@ def krylov_desc(draw, nmax=14, kinds=('herm_real', 'herm_complex'), extra_m=3):
 
 
 def afunc_of(A, form):
-    """The linear map x -> A x in two forms a caller may hand over: a function returning a fresh array, or a function that writes into
-    one preallocated buffer and returns that same buffer on every call (the library has to copy what it wants to keep).
+    """The linear map x -> A x in three forms a caller may hand over: a function returning a fresh array, a function that writes into
+    one preallocated buffer and returns that same buffer on every call (the library has to copy what it wants to keep), or a function
+    returning a strided (non-contiguous, writable) view.
     (A read-only return value is NOT among the forms: the iterations update the returned array in place, every caller in the library
     returns a fresh writable array, and nothing documents more - a first version of this generator included it and raised a false alarm
     within one run.)"""
-    if form % 2 == 1:
+    if form % 3 == 2:
+        # a strided (non-contiguous) view, e.g. the sub-lattice part of a larger result
+        def g(x):
+            y = np.zeros(2 * A.shape[0], dtype=complex)
+            y[::2] = A @ x
+            return y[::2]
+        return g
+    if form % 3 == 1:
         buf = np.zeros(A.shape[0], dtype=complex)
 
         def f(x):
